@@ -89,3 +89,8 @@ def aeadTable : List (Nat × Nat × Nat × Nat) :=
   [(aeadIdEax, aeadNonceEax, aeadIvEax, aeadTagEax), (aeadIdOcb, aeadNonceOcb, aeadIvOcb, aeadTagOcb),
    (aeadIdGcm, aeadNonceGcm, aeadIvGcm, aeadTagGcm)]
 """)
+
+# ---- crypto/sym/decryptor.rs StreamDecryptor::new: session key length (D18d) ----------------------
+flag("fixD18dCfbSessionKeyLenChecked", "src/crypto/sym/decryptor.rs",
+     r"pub fn new\(\s*alg: SymmetricKeyAlgorithm,\s*protected: bool,[^)]*\) -> Result<Self> \{(?:\s*//[^\n]*)*\s*ensure_eq!\(\s*key\.len\(\),\s*alg\.key_size\(\),",
+     "D18d repaired: the CFB stream decryptor (SEIPDv1, SED) refuses session keys whose length is not the key size of the cipher before the cipher's own variable-length key schedule sees them")
